@@ -885,3 +885,66 @@ func isUint64(t types.Type) bool {
 	b, ok := t.Underlying().(*types.Basic)
 	return ok && b.Kind() == types.Uint64
 }
+
+func init() {
+	register(&Rule{
+		ID: "FIELD-WRITERS", Props: []string{"C02", "C09", "C19"}, Floor: 12,
+		Doc: "each field of tableEntry has a frozen set of functions that may store to it (revision: modify/delete only; init: RegisterInitializer and Commit; deleteTrackers: addDeleteTracker/close/construction; indexes: WriteTxn/construction, its elements additionally indexWriteTxn/Commit); Abort, readers, the collector and everything else never write table metadata",
+		Run: ruleFieldWriters,
+	})
+}
+
+var entryFieldWriters = map[string]map[string]bool{
+	"revision":       {"statedb.(writeTxnState).modify": true, "statedb.(writeTxnState).delete": true},
+	"init":           {"statedb.(genTable).RegisterInitializer": true, "statedb.(writeTxnHandle).Commit": true},
+	"deleteTrackers": {"statedb.(writeTxnState).addDeleteTracker": true, "statedb.(deleteTracker).close": true, "statedb.(genTable).tableEntry": true},
+	"indexes":        {"statedb.(DB).WriteTxn": true, "statedb.(genTable).tableEntry": true},
+	"indexes[]":      {"statedb.(writeTxnState).indexWriteTxn": true, "statedb.(writeTxnHandle).Commit": true, "statedb.(genTable).tableEntry": true},
+	"meta":           {"statedb.(genTable).tableEntry": true},
+	"locked":         {"statedb.(DB).WriteTxn": true, "statedb.(writeTxnHandle).Commit": true},
+}
+
+func ruleFieldWriters(c *Ctx, r *Reporter) {
+	n := 0
+	for _, fn := range c.Funcs {
+		for _, ia := range allInstrs(fn) {
+			st, ok := ia.In.(*ssa.Store)
+			if !ok {
+				continue
+			}
+			field := ""
+			switch a := st.Addr.(type) {
+			case *ssa.FieldAddr:
+				if tn, f, _ := fieldOf(a); tn == "tableEntry" {
+					field = f
+				}
+			case *ssa.IndexAddr:
+				if _, ok := loadOfField(a.X, "tableEntry", "indexes"); ok {
+					field = "indexes[]"
+				}
+			}
+			if field == "" {
+				// whole-struct store into a tableEntry allocation is construction/copy
+				continue
+			}
+			n++
+			who := c.fnName(topLevel(fn))
+			key := fmt.Sprintf("%s|store tableEntry.%s", who, field)
+			props := []string{"C02"}
+			switch field {
+			case "revision":
+				props = []string{"C02", "C09"}
+			case "init":
+				props = []string{"C02", "C19"}
+			}
+			if entryFieldWriters[field][who] {
+				r.okP(props, key, c.posStr(instrPos(st)), "allowed writer of tableEntry."+field)
+			} else {
+				r.badP(props, key, c.posStr(instrPos(st)), "tableEntry."+field+" is written by a function outside its frozen writer set: table metadata (revision, initialization, trackers, indexes) changes outside the write primitives / Commit")
+			}
+		}
+	}
+	if n < 12 {
+		r.undecided("stores", "-", fmt.Sprintf("expected at least 12 stores to tableEntry fields, found %d", n))
+	}
+}
